@@ -208,11 +208,27 @@ func checkRef(c *core.Ctx, n *node) {
 	buf := bytes.NewBuffer(nil)
 	tk := namer.NewDefaultImportTracker()
 	w := gengo.NewSnippetWriter(buf, namer.NameSystems{"raw": namer.NewRawNamer(target, tk)})
-	if p := try(func() { w.Render(snippet.ID(s)) }); p != nil {
+	// (ONE snippet value is rendered through both naming systems of this case, as a generator does that
+	// keeps a reference in a variable; for references with a package path the same holds for PkgExpose)
+	sn := snippet.ID(s)
+	if p := try(func() { w.Render(sn) }); p != nil {
 		c.Fail(classNestedComma(n), cs, "rendering ID(%q) panicked: %v", s, p)
 		return
 	}
 	got := buf.String()
+	var exposed snippet.Snippet
+	if n.path != "" {
+		exposed = snippet.PkgExpose(n.path, strings.TrimPrefix(s, n.path+"."))
+		ebuf := bytes.NewBuffer(nil)
+		etk := namer.NewDefaultImportTracker()
+		ew := gengo.NewSnippetWriter(ebuf, namer.NameSystems{"raw": namer.NewRawNamer(target, etk)})
+		if p := try(func() { ew.Render(exposed) }); p != nil {
+			c.Fail(classNestedComma(n), cs, "rendering PkgExpose(%q, %q) panicked: %v", n.path, strings.TrimPrefix(s, n.path+"."), p)
+			exposed = nil
+		} else if ebuf.String() != got {
+			c.Fail("", cs, "PkgExpose(%q, %q) rendered %q, ID(%q) rendered %q for the same target", n.path, strings.TrimPrefix(s, n.path+"."), ebuf.String(), s, got)
+		}
+	}
 	imports := tk.Imports()
 	wantPaths := map[string]bool{}
 	n.paths(wantPaths)
@@ -250,9 +266,32 @@ func checkRef(c *core.Ctx, n *node) {
 	buf2 := bytes.NewBuffer(nil)
 	tk2 := namer.NewDefaultImportTracker()
 	w2 := gengo.NewSnippetWriter(buf2, namer.NameSystems{"raw": namer.NewRawNamer(target2, tk2)})
-	if p := try(func() { w2.Render(snippet.ID(s)) }); p != nil {
+	if p := try(func() { w2.Render(sn) }); p != nil {
 		c.Fail("", cs, "second rendering of ID(%q) (target %s) panicked: %v", s, target2, p)
 		return
+	}
+	if exposed != nil {
+		ebuf := bytes.NewBuffer(nil)
+		etk := namer.NewDefaultImportTracker()
+		ew := gengo.NewSnippetWriter(ebuf, namer.NameSystems{"raw": namer.NewRawNamer(target2, etk)})
+		if p := try(func() { ew.Render(exposed) }); p != nil {
+			c.Fail("", cs, "second rendering of the PkgExpose value of %q (target %s) panicked: %v", s, target2, p)
+		} else {
+			ei := etk.Imports()
+			wp := map[string]bool{}
+			n.pathsFor(target2, wp)
+			same := len(ei) == len(wp)
+			for p := range wp {
+				if _, ok := ei[p]; !ok {
+					same = false
+				}
+			}
+			if !same {
+				c.Fail("C15-snippet-value-remembers-its-first-naming-system", cs, "the PkgExpose value of %q, rendered for %s after it was rendered for %s, registered %v, want exactly the packages %v", s, target2, target, ei, wp)
+			} else if want := n.rewriteFor(target2, ei); ebuf.String() != want {
+				c.Fail("C15-snippet-value-remembers-its-first-naming-system", cs, "the PkgExpose value of %q, rendered for %s after it was rendered for %s, gives %q, want %q", s, target2, target, ebuf.String(), want)
+			}
+		}
 	}
 	want2Paths := map[string]bool{}
 	n.pathsFor(target2, want2Paths)
